@@ -26,6 +26,14 @@ pub mod log_specification {
         fn clone(&self) -> (r: LogSpecification) ensures r == *self { unimplemented!() }
     }
     pub uninterp spec fn as_str_view<S>(s: S) -> Seq<char>;
+    /// R22 SHIM for `new_spec.as_ref()` with `S: AsRef<str>` (not used by the code as it is; Verus accepts neither an
+    /// assume_specification nor an external trait specification for AsRef::as_ref): the text the argument stands for
+    #[verifier::external_body]
+    pub fn vas_ref<S: AsRef<str>>(s: &S) -> (r: &str)
+        ensures r@ == as_str_view::<S>(*s)
+    { s.as_ref() }
+    pub broadcast axiom fn ax_as_str_view_str(s: &str)
+        ensures #[trigger] as_str_view::<&str>(s) == s@;
     /// oracle: outcome of parsing a specification string (parser is outside the verifier, C17)
     pub uninterp spec fn parse_result(s: Seq<char>) -> Result<LogSpecification, FlexiLoggerError>;
     impl LogSpecification {
